@@ -39,6 +39,8 @@ pub struct Case {
     pub bytes: Vec<u8>,
     pub expect: RDoc,
     pub kind: &'static str,
+    /// for re-saved files: the multi-revision file that was loaded and the cross-reference style asked for
+    pub source: Option<(Vec<u8>, bool)>,
 }
 
 /// a sink that takes at most `max` bytes per call (pipes, sockets and compressing writers behave like this):
@@ -65,10 +67,10 @@ pub fn plain_case(d: &RDoc, xref_stream: bool) -> Result<Case, String> {
     if d.objects.len() % 8 == 3 {
         let mut sink = ShortWrites { data: vec![], max: 7 };
         doc.save_to(&mut sink).map_err(|e| format!("save_to failed: {}", e))?;
-        return Ok(Case { bytes: sink.data, expect: d.clone(), kind: if xref_stream { "short-writes/xref-stream" } else { "short-writes/xref-table" } });
+        return Ok(Case { bytes: sink.data, expect: d.clone(), kind: if xref_stream { "short-writes/xref-stream" } else { "short-writes/xref-table" }, source: None });
     }
     doc.save_to(&mut bytes).map_err(|e| format!("save_to failed: {}", e))?;
-    Ok(Case { bytes, expect: d.clone(), kind: if xref_stream { "plain/xref-stream" } else { "plain/xref-table" } })
+    Ok(Case { bytes, expect: d.clone(), kind: if xref_stream { "plain/xref-stream" } else { "plain/xref-table" }, source: None })
 }
 
 /// incremental save after random edits; returns the case and the previous bytes
@@ -99,7 +101,7 @@ pub fn incremental_case(r: &mut Rng, d: &RDoc, xref_stream: bool, steps: usize) 
         }
         bytes = out;
     }
-    Ok(Case { bytes, expect, kind: if xref_stream { "incremental/xref-stream" } else { "incremental/xref-table" } })
+    Ok(Case { bytes, expect, kind: if xref_stream { "incremental/xref-stream" } else { "incremental/xref-table" }, source: None })
 }
 
 /// a document whose streams were deflated by the library before it is saved (Document::compress): the file has
@@ -115,7 +117,43 @@ pub fn compressed_case(r: &mut Rng, d: &RDoc, xref_stream: bool) -> Result<Case,
     let expect = from_lo_doc(&doc);
     let mut bytes = vec![];
     doc.save_to(&mut bytes).map_err(|e| format!("save_to failed: {}", e))?;
-    Ok(Case { bytes, expect, kind: if xref_stream { "compressed/xref-stream" } else { "compressed/xref-table" } })
+    Ok(Case { bytes, expect, kind: if xref_stream { "compressed/xref-stream" } else { "compressed/xref-table" }, source: None })
+}
+
+/// A file that carries incremental updates (written by the library itself or by the reference writer) is loaded and
+/// saved again in one piece: nothing of the old file's layout (Prev, XRefStm, the fields of a cross-reference
+/// stream) may leak into the new file.
+pub fn resaved_case(r: &mut Rng, d: &RDoc, xref_stream: bool) -> Result<Case, String> {
+    let src = if r.bool() {
+        let steps = 1 + r.usize_below(2);
+        incremental_case(r, d, xref_stream, steps)?.bytes
+    } else {
+        let ld = crate::props::c02::legal_doc(r, 20);
+        let updates = 1 + r.usize_below(2);
+        let h = crate::props::c02::extend_history(r, &ld, updates);
+        let mut dis = std::collections::BTreeSet::new();
+        for f in ["str-raw-cr-eol", "str-raw-crlf-eol", "junk-before-header"] {
+            dis.insert(f.to_string());
+        }
+        let style = if xref_stream { crate::refimpl::refwriter::XrefStyle::Stream } else { crate::refimpl::refwriter::XrefStyle::Table };
+        crate::props::c02::write_history(r.next_u64(), &dis, &h, style, r.bool()).0.bytes
+    };
+    resave(&src, r.bool())
+}
+
+pub fn resave(src: &[u8], xref_stream_out: bool) -> Result<Case, String> {
+    let mut doc = Document::load_mem(src).map_err(|e| format!("load_mem of the multi-revision source failed: {:?}", e))?;
+    doc.reference_table.cross_reference_type = if xref_stream_out { lopdf::xref::XrefType::CrossReferenceStream } else { lopdf::xref::XrefType::CrossReferenceTable };
+    // the old file's containers (object streams, cross-reference streams) were loaded as ordinary objects; they are
+    // dropped first, as an application would, so that the strict reader does not take them for containers of the new file
+    doc.objects.retain(|_, o| match o {
+        lopdf::Object::Stream(st) => !matches!(st.dict.get(b"Type").and_then(|t| t.as_name()), Ok(b"ObjStm") | Ok(b"XRef")),
+        _ => true,
+    });
+    let expect = from_lo_doc(&doc);
+    let mut bytes = vec![];
+    doc.save_to(&mut bytes).map_err(|e| format!("save_to failed: {}", e))?;
+    Ok(Case { bytes, expect, kind: if xref_stream_out { "resaved/xref-stream" } else { "resaved/xref-table" }, source: Some((src.to_vec(), xref_stream_out)) })
 }
 
 fn run_one(seed: u64, shard: u64, i: u64, out: &mut ShardOut) {
@@ -125,6 +163,7 @@ fn run_one(seed: u64, shard: u64, i: u64, out: &mut ShardOut) {
     let xs = r.bool();
     let variant = i % 3;
     let case = match variant {
+        0 if i % 12 == 6 => resaved_case(&mut r, &d, xs),
         0 => plain_case(&d, xs),
         1 if i % 2 == 1 => compressed_case(&mut r, &d, xs),
         1 => plain_case(&d, xs),
@@ -159,7 +198,10 @@ fn run_one(seed: u64, shard: u64, i: u64, out: &mut ShardOut) {
             out.finding(Finding {
                 signature: classify_err(&e),
                 what: format!("{}: {}", case.kind, e),
-                witness: json!({"kind":"file","file_hex":hex(&case.bytes),"expect":rdoc_to_json(&case.expect),"check_header":variant!=2,"file_text":String::from_utf8_lossy(&case.bytes[..case.bytes.len().min(2000)])}),
+                witness: match &case.source {
+                    Some((src, xs_out)) => json!({"kind":"resave","source_hex":hex(src),"xref_stream_out":xs_out,"file_text":String::from_utf8_lossy(&case.bytes[..case.bytes.len().min(2000)])}),
+                    None => json!({"kind":"file","file_hex":hex(&case.bytes),"expect":rdoc_to_json(&case.expect),"check_header":variant!=2,"file_text":String::from_utf8_lossy(&case.bytes[..case.bytes.len().min(2000)])}),
+                },
             });
         }
     }
@@ -177,7 +219,7 @@ pub fn run(cfg: &RunCfg) -> (PropMeta, ShardOut, Map<String, Value>) {
     });
     let meta = PropMeta {
         level: "exploration",
-        rule: "C01-style random documents saved by Document::save_to (xref table / xref stream; one case in six after Document::compress has deflated added redundant streams) and by IncrementalDocument::save_to after 1..3 rounds of random replace/add edits; every produced file is parsed by the independent strict reader (header + binary comment, startxref/Prev chain, 20-byte entries, W/Index/Length consistency, exact object-header offsets, Length == bytes up to endstream, Size > every number, every byte accounted, every object named by a section) and the recovered document is compared with the saved one. distinct = distinct file bytes.".into(),
+        rule: "C01-style random documents saved by Document::save_to (xref table / xref stream; one case in six after Document::compress has deflated added redundant streams) and by IncrementalDocument::save_to after 1..3 rounds of random replace/add edits; one case in twelve loads a file with incremental updates (written by the library or by the reference writer) and saves it again in one piece; every produced file is parsed by the independent strict reader (header + binary comment, startxref/Prev chain, 20-byte entries, W/Index/Length consistency, exact object-header offsets, Length == bytes up to endstream, Size > every number, every byte accounted, every object named by a section) and the recovered document is compared with the saved one. distinct = distinct file bytes.".into(),
         assumptions: vec![
             "the strict reader demands only what the property lists (e.g. it does not require an xref stream to list object 0, nor a single subsection in a never-updated file)".into(),
             "for incremental files version/binary mark are those of the first header".into(),
@@ -189,6 +231,17 @@ pub fn run(cfg: &RunCfg) -> (PropMeta, ShardOut, Map<String, Value>) {
 }
 
 pub fn replay(w: &Value) -> Vec<Finding> {
+    if w.get("kind").and_then(|k| k.as_str()) == Some("resave") {
+        let src = unhex(w.get("source_hex").and_then(|x| x.as_str()).unwrap_or(""));
+        let xs_out = w.get("xref_stream_out").and_then(|x| x.as_bool()).unwrap_or(false);
+        return match resave(&src, xs_out) {
+            Err(e) => vec![Finding { signature: classify_err(&e), what: e, witness: w.clone() }],
+            Ok(c) => match validate(&c.bytes, &c.expect, true) {
+                Ok(_) => vec![],
+                Err(e) => vec![Finding { signature: classify_err(&e), what: format!("{}: {}", c.kind, e), witness: w.clone() }],
+            },
+        };
+    }
     if w.get("kind").and_then(|k| k.as_str()) == Some("file") {
         let bytes = unhex(w.get("file_hex").and_then(|x| x.as_str()).unwrap_or(""));
         let Some(expect) = w.get("expect").and_then(rdoc_from_json) else { return vec![] };
